@@ -60,6 +60,8 @@ def rand_string(rng, blanks):
     s = parts[0]
     for p in parts[1:]:
         s += " " * rng.choice([1, 1, 2, 3]) + p
+    if rng.random() < 0.05:
+        s = s + " " * rng.choice([1, 2])          # a blank at the end is part of the string (it is written quoted)
     return s
 
 
